@@ -267,16 +267,8 @@ func (p *ParserZH) consume(validTypes ...uint8) {
 // expectBlockIndent - detect if the Indent(peek) == Indent(current) + 1
 // returns (validBlockIndent, newIndent)
 func (p *ParserZH) expectBlockIndent() (bool, int) {
-	var peekLine = p.StartLineIdxP2
-	var currLine = p.StartLineIdxP1
-	// a header whose last line begins inside a text (or comment) spanning lines: that line
-	// has no indentation of its own, the header is indented as the line the text began on
-	for currLine > 0 && p.GetLineInfo(currLine).Continued {
-		currLine--
-	}
-
-	var peekIndent = p.GetLineInfo(peekLine).Indents
-	var currIndent = p.GetLineInfo(currLine).Indents
+	var peekIndent = p.lineIndent(p.StartLineIdxP2)
+	var currIndent = p.lineIndent(p.StartLineIdxP1)
 
 	if peekIndent == currIndent+1 {
 		return true, peekIndent
@@ -284,26 +276,30 @@ func (p *ParserZH) expectBlockIndent() (bool, int) {
 	return false, 0
 }
 
-// getPeekIndent -
-func (p *ParserZH) getPeekIndent() int {
-	var peekLine = p.StartLineIdxP2
-
-	lineInfo := p.GetLineInfo(peekLine)
+// lineIndent - the indentation that counts for what stands on line idx. A line that begins
+// inside a text (or comment) spanning lines has no indentation of its own: whatever follows
+// the text on it - the ： of a block header, a statement after ； - is indented as the line
+// the text began on
+func (p *ParserZH) lineIndent(idx int) int {
+	lineInfo := p.GetLineInfo(idx)
 	if lineInfo == nil {
 		return 0
+	}
+	for idx > 0 && lineInfo.Continued {
+		idx--
+		lineInfo = p.GetLineInfo(idx)
 	}
 	return lineInfo.Indents
 }
 
+// getPeekIndent -
+func (p *ParserZH) getPeekIndent() int {
+	return p.lineIndent(p.StartLineIdxP2)
+}
+
 // getCurrIndent -
 func (p *ParserZH) getCurrIndent() int {
-	var currLine = p.StartLineIdxP1
-
-	lineInfo := p.GetLineInfo(currLine)
-	if lineInfo == nil {
-		return 0
-	}
-	return lineInfo.Indents
+	return p.lineIndent(p.StartLineIdxP1)
 }
 
 // equals to s.SetCurrentLine(<line of tk>)
